@@ -32,9 +32,9 @@ const prefix = "C46 "
 
 // ---- JSON shapes printed by Ranges.tla ----------------------------------------------------------
 
-type Rce [2]int  // <<lo, hi>> cut ranks
-type Rng []Rce   // K column expressions
-type PSet []int  // key tuples, base-8 codes of point indexes, ascending (TLC's normal order)
+type Rce [2]int // <<lo, hi>> cut ranks
+type Rng []Rce  // K column expressions
+type PSet []int // key tuples, base-8 codes of point indexes, ascending (TLC's normal order)
 
 type Bin struct {
 	In  PSet `json:"in"`
@@ -53,6 +53,7 @@ type Case struct {
 	Un  PSet   `json:"un"`
 	Emp []bool `json:"emp"`
 	Nt  bool   `json:"nt"`
+	Deg bool   `json:"deg"`
 	Bin []Bin  `json:"bin"`
 	Ci  []PSet `json:"ci"`
 	// build
@@ -60,12 +61,15 @@ type Case struct {
 	L    int    `json:"l"`
 	U    int    `json:"u"`
 	// tree
-	Step int   `json:"step"`
+	Step int    `json:"step"`
 	Kind string `json:"kind"`
-	R    Rng   `json:"r"`
-	Pre  []Rng `json:"pre"`
-	Post []Rng `json:"post"`
-	Must []Rng `json:"must"`
+	R    Rng    `json:"r"`
+	Pre  []Rng  `json:"pre"`
+	Post []Rng  `json:"post"`
+	Qs   []struct {
+		Q    Rng   `json:"q"`
+		Must []Rng `json:"must"`
+	} `json:"qs"`
 }
 
 // ---- the correspondence spec value <-> real value (the only projection in this file) --------------
@@ -324,10 +328,12 @@ type Collector struct {
 	okUnion  [2]int
 	okMerge  [2]int
 	treeMat  int
+	unchosen int
 	maxShown int
 }
 
 type caseCtx struct {
+	tag   string // appended to every signature: "[degenerate]" for inputs with a degenerate column expression
 	c     *Collector
 	idx   int
 	raw   json.RawMessage
@@ -338,6 +344,7 @@ type caseCtx struct {
 
 // slot is what one worker is doing right now; the watchdog reads it.
 type slot struct {
+	tag   string
 	mu    sync.Mutex
 	idx   int
 	op    string
@@ -346,7 +353,17 @@ type slot struct {
 	hung  bool
 }
 
+func (s *slot) setTag(t string) {
+	if s == nil {
+		return
+	}
+	s.mu.Lock()
+	s.tag = t
+	s.mu.Unlock()
+}
+
 func (s *slot) set(idx int, op string, raw json.RawMessage) {
+	// op already carries the case's tag (see guarded)
 	if s == nil {
 		return
 	}
@@ -358,13 +375,24 @@ func (s *slot) set(idx int, op string, raw json.RawMessage) {
 func (cc *caseCtx) op(name string) { cc.local[name]++ }
 
 func (cc *caseCtx) fail(sig string, expected, got interface{}) {
-	cc.mm = append(cc.mm, vio.Mismatch{Case: cc.idx, Signature: sig, Expected: expected, Got: got, Input: cc.raw})
+	cc.mm = append(cc.mm, vio.Mismatch{Case: cc.idx, Signature: sig + cc.tag, Expected: expected, Got: got, Input: cc.raw})
+}
+
+// failErr classifies an error return: <op>/error:overlapping-ranges is validateRangeCollection
+// rejecting the operation's own result, anything else is <op>/error.
+func (cc *caseCtx) failErr(op string, err error) {
+	if strings.Contains(err.Error(), "overlapping ranges") {
+		cc.fail(op+"/error:overlapping-ranges", "a result", err.Error())
+		return
+	}
+	cc.fail(op+"/error", "a result", err.Error())
 }
 
 // guarded runs one real operation; a panic is a mismatch <op>/panic.
 func (cc *caseCtx) guarded(name string, f func()) {
 	cc.op(name)
 	cc.slot.set(cc.idx, name, cc.raw)
+	cc.slot.setTag(cc.tag)
 	defer cc.slot.set(cc.idx, "", nil)
 	defer func() {
 		if r := recover(); r != nil {
@@ -419,7 +447,7 @@ func (w *W) runCase(cc *caseCtx, c *Case) {
 		cc.guarded("IsEmpty", func() {
 			e, err := in[i].IsEmpty(ctx)
 			if err != nil {
-				cc.fail("IsEmpty/error", nil, err.Error())
+				cc.failErr("IsEmpty", err)
 			} else if e != c.Emp[i] {
 				cc.fail("IsEmpty/value", c.Emp[i], e)
 			}
@@ -433,7 +461,7 @@ func (w *W) runCase(cc *caseCtx, c *Case) {
 			cc.guarded("TryIntersect", func() {
 				r, ok, err := ea.TryIntersect(ctx, eb)
 				if err != nil {
-					cc.fail("TryIntersect/error", nil, err.Error())
+					cc.failErr("TryIntersect", err)
 					return
 				}
 				if ok != x.Ov {
@@ -444,7 +472,7 @@ func (w *W) runCase(cc *caseCtx, c *Case) {
 			cc.guarded("ColOverlaps", func() {
 				r, ok, err := ea.Overlaps(ctx, eb)
 				if err != nil {
-					cc.fail("ColOverlaps/error", nil, err.Error())
+					cc.failErr("ColOverlaps", err)
 					return
 				}
 				if ok != x.Ov {
@@ -455,7 +483,7 @@ func (w *W) runCase(cc *caseCtx, c *Case) {
 			cc.guarded("TryUnion", func() {
 				r, ok, err := ea.TryUnion(ctx, eb)
 				if err != nil {
-					cc.fail("TryUnion/error", nil, err.Error())
+					cc.failErr("TryUnion", err)
 					return
 				}
 				cc.c.mu.Lock()
@@ -472,7 +500,7 @@ func (w *W) runCase(cc *caseCtx, c *Case) {
 			cc.guarded("Subtract", func() {
 				rs, err := ea.Subtract(ctx, eb)
 				if err != nil {
-					cc.fail("Subtract/error", nil, err.Error())
+					cc.failErr("Subtract", err)
 					return
 				}
 				w.judgeList(cc, "Subtract", cols(rs), x.Df, k, nv, true, true)
@@ -481,7 +509,7 @@ func (w *W) runCase(cc *caseCtx, c *Case) {
 				cc.guarded("ColIsSubsetOf", func() {
 					ok, err := ea.IsSubsetOf(ctx, eb)
 					if err != nil {
-						cc.fail("ColIsSubsetOf/error", nil, err.Error())
+						cc.failErr("ColIsSubsetOf", err)
 					} else if ok != x.Sub {
 						cc.fail("ColIsSubsetOf/value", x.Sub, ok)
 					}
@@ -491,7 +519,7 @@ func (w *W) runCase(cc *caseCtx, c *Case) {
 		cc.guarded("Intersect", func() {
 			r, err := a.Intersect(ctx, b)
 			if err != nil {
-				cc.fail("Intersect/error", nil, err.Error())
+				cc.failErr("Intersect", err)
 				return
 			}
 			w.judgeList(cc, "Intersect", []sql.MySQLRange{r}, x.In, k, nv, false, false)
@@ -503,7 +531,7 @@ func (w *W) runCase(cc *caseCtx, c *Case) {
 		cc.guarded("Overlaps", func() {
 			ok, err := a.Overlaps(ctx, b)
 			if err != nil {
-				cc.fail("Overlaps/error", nil, err.Error())
+				cc.failErr("Overlaps", err)
 			} else if ok != x.Ov {
 				cc.fail("Overlaps/value", x.Ov, ok)
 			}
@@ -512,13 +540,13 @@ func (w *W) runCase(cc *caseCtx, c *Case) {
 			cc.guarded("IsSubsetOf", func() {
 				ok, err := a.IsSubsetOf(ctx, b)
 				if err != nil {
-					cc.fail("IsSubsetOf/error", nil, err.Error())
+					cc.failErr("IsSubsetOf", err)
 				} else if ok != x.Sub {
 					cc.fail("IsSubsetOf/value", x.Sub, ok)
 				}
 				ok, err = a.IsSupersetOf(ctx, b)
 				if err != nil {
-					cc.fail("IsSupersetOf/error", nil, err.Error())
+					cc.failErr("IsSupersetOf", err)
 				} else if ok != x.Sup {
 					cc.fail("IsSupersetOf/value", x.Sup, ok)
 				}
@@ -527,7 +555,7 @@ func (w *W) runCase(cc *caseCtx, c *Case) {
 		cc.guarded("TryMerge", func() {
 			r, ok, err := a.TryMerge(ctx, b)
 			if err != nil {
-				cc.fail("TryMerge/error", nil, err.Error())
+				cc.failErr("TryMerge", err)
 				return
 			}
 			cc.c.mu.Lock()
@@ -544,7 +572,7 @@ func (w *W) runCase(cc *caseCtx, c *Case) {
 		cc.guarded("RemoveOverlap", func() {
 			rs, _, err := a.RemoveOverlap(ctx, b)
 			if err != nil {
-				cc.fail("RemoveOverlap/error", nil, err.Error())
+				cc.failErr("RemoveOverlap", err)
 				return
 			}
 			w.judgeList(cc, "RemoveOverlap", rs, c.Un, k, nv, false, true)
@@ -553,7 +581,7 @@ func (w *W) runCase(cc *caseCtx, c *Case) {
 	cc.guarded("RemoveOverlappingRanges", func() {
 		rs, err := sql.RemoveOverlappingRanges(ctx, mkRanges(c.Rs, nv)...)
 		if err != nil {
-			cc.fail("RemoveOverlappingRanges/error", nil, err.Error())
+			cc.failErr("RemoveOverlappingRanges", err)
 			return
 		}
 		w.judgeList(cc, "RemoveOverlappingRanges", rs, c.Un, k, nv, true, true)
@@ -561,7 +589,7 @@ func (w *W) runCase(cc *caseCtx, c *Case) {
 	cc.guarded("SortRanges", func() {
 		rs, err := sql.SortRanges(ctx, mkRanges(c.Rs, nv)...)
 		if err != nil {
-			cc.fail("SortRanges/error", nil, err.Error())
+			cc.failErr("SortRanges", err)
 			return
 		}
 		if len(rs) != n {
@@ -577,7 +605,7 @@ func (w *W) runCase(cc *caseCtx, c *Case) {
 			}
 			rs, err := sql.SimplifyRangeColumn(ctx, es...)
 			if err != nil {
-				cc.fail("SimplifyRangeColumn/error", nil, err.Error())
+				cc.failErr("SimplifyRangeColumn", err)
 				return
 			}
 			w.judgeList(cc, "SimplifyRangeColumn", cols(rs), c.Un, k, nv, true, true)
@@ -590,7 +618,7 @@ func (w *W) runCase(cc *caseCtx, c *Case) {
 			B := sql.MySQLRangeCollection(mkRanges(c.Rs[s:], nv))
 			rs, err := A.Intersect(ctx, B)
 			if err != nil {
-				cc.fail("CollectionIntersect/error", nil, err.Error())
+				cc.failErr("CollectionIntersect", err)
 				return
 			}
 			w.judgeList(cc, "CollectionIntersect", rs, c.Ci[s-1], k, nv, true, true)
@@ -641,9 +669,19 @@ func (w *W) runBuild(cc *caseCtx, c *Case, nv int) {
 // ---- the range tree ---------------------------------------------------------------------------------------
 
 type treeState struct {
-	tree     *sql.MySQLRangeColumnExprTree
-	lastStep int
-	valid    bool
+	tree  *sql.MySQLRangeColumnExprTree
+	abs   string // the abstract state the real tree is believed to be in ("?" = unknown)
+	valid bool
+}
+
+// absOf is the canonical text of a set of spec ranges.
+func absOf(rs []Rng) string {
+	xs := make([]string, len(rs))
+	for i, r := range rs {
+		xs[i] = specRange(r)
+	}
+	sort.Strings(xs)
+	return strings.Join(xs, " ")
 }
 
 func (w *W) materialise(rs []Rng, nv int, rng *rand.Rand) *sql.MySQLRangeColumnExprTree {
@@ -671,7 +709,9 @@ func (w *W) materialise(rs []Rng, nv int, rng *rand.Rand) *sql.MySQLRangeColumnE
 func (w *W) runTree(cc *caseCtx, c *Case, ts *treeState, behaviours bool, rng *rand.Rand) {
 	k, nv := c.K, c.NV
 	ctx := w.ctx
-	cont := behaviours && ts.valid && c.Step == ts.lastStep+1 && c.Step != 1
+	// behaviours mode: continue on the history-dependent real tree while its abstract state is the
+	// pre-state of this step; otherwise (and always in transitions mode) build the pre-state afresh
+	cont := behaviours && ts.valid && ts.abs == absOf(c.Pre)
 	if !cont {
 		ts.tree = nil
 		cc.guarded("Tree.materialise", func() { ts.tree = w.materialise(c.Pre, nv, rng) })
@@ -679,13 +719,13 @@ func (w *W) runTree(cc *caseCtx, c *Case, ts *treeState, behaviours bool, rng *r
 		cc.c.treeMat++
 		cc.c.mu.Unlock()
 	}
-	ts.lastStep, ts.valid = c.Step, true
-	r := mkRange(c.R, nv)
+	ts.abs, ts.valid = absOf(c.Post), true
 	name := "Tree." + c.Kind
 	before := len(cc.mm)
 	cc.guarded(name, func() {
 		switch c.Kind {
 		case "ins":
+			r := mkRange(c.R, nv)
 			if ts.tree == nil {
 				t, err := sql.NewMySQLRangeColumnExprTree(r, sql.GetColExprTypes([]sql.MySQLRange{r}))
 				if err != nil {
@@ -698,7 +738,7 @@ func (w *W) runTree(cc *caseCtx, c *Case, ts *treeState, behaviours bool, rng *r
 				return
 			}
 		case "rem":
-			if err := ts.tree.Remove(ctx, r); err != nil {
+			if err := ts.tree.Remove(ctx, mkRange(c.R, nv)); err != nil {
 				cc.fail(name+"/error", nil, err.Error())
 				return
 			}
@@ -706,28 +746,31 @@ func (w *W) runTree(cc *caseCtx, c *Case, ts *treeState, behaviours bool, rng *r
 		if ts.tree == nil {
 			return
 		}
-		// FindConnections(r): stored ranges only, and at least every stored range overlapping r
-		found, err := ts.tree.FindConnections(ctx, r, 0)
-		if err != nil {
-			cc.fail(name+"/find-error", nil, err.Error())
-			return
-		}
-		got := map[string]bool{}
-		for _, f := range found {
-			got[backRange(f, nv)] = true
-		}
 		stored := map[string]bool{}
 		for _, p := range c.Post {
 			stored[specRange(p)] = true
 		}
-		for _, m := range c.Must {
-			if !got[specRange(m)] {
-				cc.fail(name+"/find-missed", specRange(m), show(found, nv))
+		// FindConnections(q): stored ranges only, and at least every stored range overlapping q
+		for _, q := range c.Qs {
+			found, err := ts.tree.FindConnections(ctx, mkRange(q.Q, nv), 0)
+			if err != nil {
+				cc.fail(name+"/find-error", nil, err.Error())
+				return
 			}
-		}
-		for g := range got {
-			if !stored[g] {
-				cc.fail(name+"/find-phantom", "a stored range", g)
+			cc.local["Tree.FindConnections"]++
+			got := map[string]bool{}
+			for _, f := range found {
+				got[backRange(f, nv)] = true
+			}
+			for _, m := range q.Must {
+				if !got[specRange(m)] {
+					cc.fail(name+"/find-missed", map[string]string{"query": specRange(q.Q), "missed": specRange(m)}, show(found, nv))
+				}
+			}
+			for g := range got {
+				if !stored[g] {
+					cc.fail(name+"/find-phantom", map[string]string{"query": specRange(q.Q)}, g)
+				}
 			}
 		}
 		coll, err := ts.tree.GetRangeCollection(ctx)
@@ -768,7 +811,7 @@ type job struct {
 
 func main() {
 	file := flag.String("file", "", "TLC output (lines \"C46 <json>\") or ndjson of cases")
-	treeMode := flag.String("tree", "transitions", "tree records: transitions (materialise every pre-state) | behaviours (continue while step increases)")
+	treeMode := flag.String("tree", "transitions", "tree records: transitions (build every pre-state afresh) | behaviours (-simulate output: follow the step that was taken) | path (apply every record in order)")
 	seed := flag.Int64("seed", 1, "")
 	workers := flag.Int("workers", 6, "")
 	dedupe := flag.Bool("dedupe", false, "count distinct inputs (simulation output repeats cases)")
@@ -776,6 +819,7 @@ func main() {
 	start := flag.Int("start", 0, "skip the cases before this index (resuming after a hang)")
 	opTimeout := flag.Duration("optimeout", 4*time.Second, "an operation on one case running longer than this is a hang")
 	prof := flag.String("cpuprofile", "", "write a CPU profile (diagnostics)")
+	logPath := flag.String("log", "", "with -file -: write TLC's other output lines here")
 	flag.Parse()
 	if *prof != "" {
 		pf, err := os.Create(*prof)
@@ -788,11 +832,23 @@ func main() {
 
 	col := &Collector{rep: &vio.Report{Extra: map[string]interface{}{}}, bySig: map[string]int{}, byOp: map[string]int{},
 		seen: map[string]bool{}, dedupe: *dedupe, maxShown: 40}
-	fh, err := os.Open(*file)
-	if err != nil {
-		vio.Fatal("%v", err)
+	fh := os.Stdin
+	var logw *bufio.Writer
+	if *file != "-" {
+		var err error
+		if fh, err = os.Open(*file); err != nil {
+			vio.Fatal("%v", err)
+		}
+		defer fh.Close()
+	} else if *logPath != "" {
+		lf, err := os.Create(*logPath)
+		if err != nil {
+			vio.Fatal("%v", err)
+		}
+		defer lf.Close()
+		logw = bufio.NewWriter(lf)
+		defer logw.Flush()
 	}
-	defer fh.Close()
 	sc := bufio.NewScanner(fh)
 	sc.Buffer(make([]byte, 1<<20), 1<<28)
 
@@ -820,9 +876,9 @@ func main() {
 					hung.Store(true)
 					col.mu.Lock()
 					col.total++
-					col.bySig[s.op+"/hang"]++
+					col.bySig[s.op+"/hang"+s.tag]++
 					col.rep.Cases++
-					col.rep.Mismatches = append(col.rep.Mismatches, vio.Mismatch{Case: s.idx, Signature: s.op + "/hang",
+					col.rep.Mismatches = append(col.rep.Mismatches, vio.Mismatch{Case: s.idx, Signature: s.op + "/hang" + s.tag,
 						Expected: "returns", Got: fmt.Sprintf("still running after %s", *opTimeout), Input: s.raw})
 					col.mu.Unlock()
 					wg.Done() // this worker will never finish
@@ -847,6 +903,9 @@ func main() {
 				}
 				c.norm()
 				cc := &caseCtx{c: col, idx: j.idx, raw: j.raw, local: map[string]int{}, slot: sl}
+				if c.Deg {
+					cc.tag = "[degenerate]"
+				}
 				switch c.Op {
 				case "case":
 					w.runCase(cc, &c)
@@ -864,6 +923,10 @@ func main() {
 	for sc.Scan() {
 		raw, ok := decode(sc.Bytes())
 		if !ok {
+			if logw != nil {
+				logw.Write(sc.Bytes())
+				logw.WriteByte('\n')
+			}
 			continue
 		}
 		i := idx
@@ -905,15 +968,74 @@ func main() {
 			w := &W{ctx: sql.NewEmptyContext()}
 			ts := &treeState{}
 			rng := rand.New(rand.NewSource(*seed))
+			// In -simulate output TLC prints every candidate successor of a step (one group of
+			// consecutive records with the same step); the behaviour continues from the candidate
+			// whose post-state is the pre-state of the next group.  Queries do not change the tree,
+			// so every candidate query of a group is asked on the history-dependent real tree.
+			var cs []*Case
 			for _, j := range treeJobs {
-				var c Case
-				if err := json.Unmarshal(j.raw, &c); err != nil {
+				c := &Case{}
+				if err := json.Unmarshal(j.raw, c); err != nil {
 					vio.Fatal("case %d: %v", j.idx, err)
 				}
 				c.norm()
-				cc := &caseCtx{c: col, idx: j.idx, raw: j.raw, local: map[string]int{}, slot: sl}
-				w.runTree(cc, &c, ts, *treeMode == "behaviours", rng)
-				col.merge(cc, &c, &nontrivialSamples)
+				cs = append(cs, c)
+			}
+			// history = the steps applied to the real tree since it was last built from scratch; a
+			// mismatch of a behaviour carries it, so that it can be re-run alone (-tree path)
+			var history []json.RawMessage
+			run := func(i int) {
+				cc := &caseCtx{c: col, idx: treeJobs[i].idx, raw: treeJobs[i].raw, local: map[string]int{}, slot: sl,
+					tag: fmt.Sprintf("[k=%d]", cs[i].K)}
+				mat := col.treeMat
+				w.runTree(cc, cs[i], ts, *treeMode != "transitions", rng)
+				if col.treeMat != mat {
+					history = history[:0]
+				}
+				history = append(history, treeJobs[i].raw)
+				if *treeMode != "transitions" && len(cc.mm) > 0 {
+					b, _ := json.Marshal(map[string]interface{}{"op": "tree", "behaviour": history})
+					for x := range cc.mm {
+						cc.mm[x].Input = json.RawMessage(b)
+					}
+				}
+				col.merge(cc, cs[i], &nontrivialSamples)
+			}
+			for i := 0; i < len(cs); {
+				if *treeMode != "behaviours" {
+					run(i)
+					i++
+					continue
+				}
+				e := i
+				for e < len(cs) && cs[e].Step == cs[i].Step && absOf(cs[e].Pre) == absOf(cs[i].Pre) {
+					e++
+				}
+				// the step that was taken: the sweep (deterministic), or the candidate whose post-state
+				// the next printed step starts from; none when the behaviour went on with an unprinted
+				// step (first column of an insert) or ended here
+				chosen := -1
+				if cs[i].Kind == "sweep" {
+					chosen = i
+				} else if e < len(cs) && cs[e].Step > cs[i].Step {
+					next := absOf(cs[e].Pre)
+					for x := i; x < e; x++ {
+						if absOf(cs[x].Post) == next {
+							chosen = x
+							break
+						}
+					}
+				}
+				col.mu.Lock()
+				col.unchosen += e - i
+				col.mu.Unlock()
+				if chosen >= 0 {
+					run(chosen)
+					col.mu.Lock()
+					col.unchosen--
+					col.mu.Unlock()
+				}
+				i = e
 			}
 			wg.Done()
 		}()
@@ -935,6 +1057,7 @@ func main() {
 	rep.Extra["tryunion_ok_fail"] = col.okUnion
 	rep.Extra["trymerge_ok_fail"] = col.okMerge
 	rep.Extra["tree_materialisations"] = col.treeMat
+	rep.Extra["tree_unchosen_candidates"] = col.unchosen
 	rep.Extra["skipped_by_sampling"] = skipped
 	rep.Extra["hung"] = hung.Load()
 	rep.Extra["resume_from"] = resume // -1: the whole file was processed
@@ -944,6 +1067,9 @@ func main() {
 	sort.SliceStable(rep.Mismatches, func(i, j int) bool { return rep.Mismatches[i].Case < rep.Mismatches[j].Case })
 	rep.Emit()
 	os.Stdout.Sync()
+	if logw != nil {
+		logw.Flush()
+	}
 	pprof.StopCPUProfile()
 	os.Exit(0)
 }
@@ -974,8 +1100,8 @@ func (col *Collector) merge(cc *caseCtx, c *Case, nsamples *int) {
 	for _, m := range cc.mm {
 		col.total++
 		col.bySig[m.Signature]++
-		// keep the first few mismatches of every signature
-		if col.bySig[m.Signature] <= 5 && len(col.rep.Mismatches) < col.maxShown && !shown[m.Signature] {
+		// keep the first example of every signature, and a second one while the report is small
+		if !shown[m.Signature] && (col.bySig[m.Signature] == 1 || col.bySig[m.Signature] <= 2 && len(col.rep.Mismatches) < col.maxShown) {
 			shown[m.Signature] = true
 			col.rep.Mismatches = append(col.rep.Mismatches, m)
 		}
